@@ -42,7 +42,24 @@ with several creates inside ONE mount (the FS-info hint carried from one allocat
 bracket the whole device is compared with the model's image (as above: parent-entry stamp poked and checked on the device), the
 outcomes are compared, and Spec/Wf.wf_issues is evaluated on the device image: no issue after successes; after NotEnoughSpace at
 most ONE issue, an orphan long-name run in that directory (the recorded class `nospace-during-entry-write`, which the model
-reproduces byte for byte: C03_volchain_grow_nospace_residue) - anything else is a failing input."""
+reproduces byte for byte: C03_volchain_grow_nospace_residue) - anything else is a failing input.
+
+ROOT DIRECTORY OF A FAT32 VOLUME, WITHOUT GROWTH (run_root32_stream; Model/Vol32Root.v): volumes of >= 65525 clusters (34 .. 69 MB
+devices filled with 0, so only the handful of non-zero 4096-byte pages travels), create_file / remove / rename in the ROOT, whose
+chain starts at BPB_RootClus and has no parent entry.  Histories: plain, "fill" (distinct long names until the root must grow - the
+model declines, "na"), "bigroot" (the library first grows the root to 2 .. 3 clusters, allocated after a data file, and leaves holes),
+"owners" (a data file and a sub-directory in the root: remove of them is declined).  Before every call the model is re-based on the
+library's previous pages (`imgq`); the root chain read from the device's FAT by this module must be the model's root32_chain; after
+the call (own mount .. unmount bracket) outcome and EVERY non-zero page are compared, and directly on the device every byte outside
+the clusters of the root chain must be unchanged - including the status byte at offset 65 (set by the first write, cleared by
+unmount) and the FS-info sector (not written: nothing was allocated or freed); nothing is excluded.
+GROWTH OF THE FAT32 ROOT: every create is also run through Vol32Root.vol32_root_create_grow (model r32grow: the FS-info latch read from
+the image by VolFsInfo.vol32_mount, the create with allocation + zero fill, then the FS-info write-back of unmount applied in the glue by
+VolFsInfo.vol32_flush_fs_info).  A create the no-growth model declines is compared through it: outcome, every non-zero page (so also
+the FS-info sector as the library's unmount rewrote it), the root chain afterwards (device FAT vs model), the FS-info free / next
+words vs the model's latch; directly on the device: only the clusters of the new root chain, the FAT entries (every copy) of the old
+last and the new clusters and the two FS-info hint words may change.  A create that fits must get the same answer from both models.
+Renames that make the root grow, removes / renames of entries owning clusters or of directories stay "na" (counted)."""
 import hashlib
 import vlib, namelib, fatimg
 from vlib import hexs
@@ -360,6 +377,7 @@ def run_stream(rep, tier, seed):
         "model_outcomes": kinds, "device_pages_compared": pages_total, "status_write_compared_ops": nmark[0], "status_write_marked": nmark[1],
         "longest_model_only_chain_per_history": [chained[j][0] for j in sorted(chained)]}
     nviol += run_sub_stream(rep, tier, seed)
+    nviol += run_root32_stream(rep, tier, seed)
     nviol += run_grow_stream(rep, tier, seed)
     from props import cvoltree_corr          # directories in the fixed root (Model/VolDirTree.v): create_dir / remove
     nviol += cvoltree_corr.run_tree_stream(rep, tier, seed)
@@ -892,4 +910,356 @@ def run_grow_stream(rep, tier, seed):
         "not_enough_space_outcomes": nnospace, "not_enough_space_after_the_directory_grew_by_a_cluster": npartial,
         "brackets_leaving_a_new_orphan_run": nresidue, "wf_evaluations_on_device": nwf,
         "declined_by_model_na": nna, "model_outcomes": kinds}
+    return nviol
+
+
+# ---------------------------------------------------------------------------------------------------------------------------
+# ROOT DIRECTORY OF A FAT32 VOLUME (run_root32_stream; Model/Vol32Root.v vol32_root_create / vol32_root_remove / vol32_root_rename,
+# model commands r32chain / r32create / r32remove / r32rename).  FAT32 needs >= 65525 clusters: the devices are 34 .. 69 MB, filled
+# with 0 so that the zeroed FATs and the untouched data area are not shipped: `pages` returns only the pages holding a non-fill byte
+# (boot sector + FS-info + backup boot, the head of each FAT copy, the directory clusters in use, data written by the prelude).
+# Every op is predicted by the model from the library's OWN previous pages (`img`), then every page is compared.
+ROOT32_CONFS = [
+    ("fat32-67000s-512b-clusters", 67000 * 512, "512 67000 512 32 - 2 - - -", 0),
+    ("fat32-134000s-1k-clusters-label", 134000 * 512, "512 134000 1024 32 - 2 248 305419896 524f4f5433322020202020", 0),
+    ("fat32-1k-sectors-67000s-1fat", 67000 * 1024, "1024 67000 1024 32 - 1 - - -", 0),
+]
+# 1 slot (short, upper / lower through the NT case bits), 2 slots (mixed case, 13 chars, non-OEM), 3 .. 6 slots (14 .. 65 chars);
+# names equal under case folding (a/A, file.txt/File.TXT, straße ...), the alias collisions of cdir_corr.RESPELL (ß~1 / ss~1)
+ROOT32_NAMES = ["a", "A", "B", "b", "UPPER", "lower.c", "file.txt", "File.TXT", "FILE.TXT", "MiXed.Txt", "x" * 13, "y" * 14, "z" * 26, "w" * 27,
+                "name.with.many.dots.ext", "straße", "STRASSE", "é.x", "s s", "ß~1", "ss~1", "~tilde", "Жук.txt", " lead", "tr.", "e5å",
+                "forty characters long name 0123456789.bi", "m" * 52, "n" * 53, "sixty-five characters is the longest name of six slots 0123456.bin"]
+CORR_ROOT32 = ("Model/Vol32Root.v root32_chain / vol32_root_create / vol32_root_remove / vol32_root_rename (model cvol r32chain / r32create / "
+               "r32remove / r32rename) vs src/fs.rs root_dir() + src/dir.rs + src/file.rs on the whole device image of a FAT32 volume")
+R32_NA = "na (would grow / entry owns clusters / is a directory)"
+
+
+def r32_slots(name):
+    """slots a create of this name takes (approximation used for the DISTRIBUTION only): 1 when the name is its own 8.3 name up to
+    the NT case bits, else 1 + ceil(utf-16 length / 13)"""
+    base, dot, ext = name.rpartition(".") if "." in name[1:] else (name, "", "")
+    ok = lambda s: all(c.isascii() and (c.isalnum() or c in "~!#$%&'()-@^_`{}") for c in s) and (s == s.upper() or s == s.lower())
+    if 1 <= len(base) <= 8 and len(ext) <= 3 and ok(base) and ok(ext) and not (dot and not ext):
+        return 1
+    return 1 + (len(name.encode("utf-16-le")) // 2 + 12) // 13
+
+
+def gen_root32_history(rng, nops, kind):
+    """kind: "plain" | "owners" (the library first makes a file with data and a sub-directory: entries the model declines to remove)
+    | "bigroot" (the library first grows the root over a second cluster, allocated AFTER a data file, and leaves holes) | "fill"
+    (mostly creates of distinct long names: the root must grow, which the no-growth model declines and vol32_root_create_grow covers)
+    | "fill2" (fill after a fixed prefix aimed at creates that need two new 512-byte clusters at once).  -> prelude lines, live names, ops"""
+    prelude, live = [], []
+    if kind in ("owners", "bigroot"):
+        prelude += ["create_file 0 %s 5" % hexs("data.bin"), "write_pat 5 %d 7" % rng.choice([1, 512, 1500, 4000]), "drop_file 5"]
+        live.append("data.bin")
+    if kind == "owners":
+        prelude += ["create_dir 0 %s 6" % hexs("sub"), "create_file 6 %s 7" % hexs("inner.txt"), "write_pat 7 300 1", "drop_file 7", "drop_dir 6"]
+        live.append("sub")
+    if kind == "bigroot":
+        fillers = ["prelude filler name %02d.txt" % k for k in range(12)]       # 3 slots each
+        for k, f in enumerate(fillers):
+            prelude += ["create_file 0 %s %d" % (hexs(f), 20 + k), "drop_file %d" % (20 + k)]
+        gone = [f for k, f in enumerate(fillers) if k % 2 == 1 or rng.chance(1, 4)]
+        prelude += ["remove 0 %s" % hexs(f) for f in gone]
+        live += [f for f in fillers if f not in gone]
+    ops = []
+    serial = 0
+    if kind == "fill2":
+        # aimed at a create that needs TWO new 512-byte clusters at once: 5 x 3 slots, then 21 slots with 1 slot left (20 more: 2 clusters),
+        # 10 slots, then 21 slots with 2 slots left
+        for n in (14, 15, 16, 17, 18, 255, 110, 254):
+            serial += 1
+            nm = ("two %02d " % serial) + "t" * (n - 7)
+            ops.append(("create", nm)); live.append(nm)
+        kind = "fill"
+        nops = max(0, nops - len(ops))
+    for _ in range(nops):
+        r = rng.below(100)
+        nm = rng.choice(ROOT32_NAMES) if rng.chance(93, 100) else rng.choice(BAD)
+        if kind == "fill" and rng.chance(2, 3):
+            serial += 1
+            nm = ("fill %02d " % serial) + "f" * rng.choice([1, 8, 20, 33, 46, 57, 58, 100, 150, 200, 247])     # up to 21 slots: two 512-byte clusters at once
+        if r < 5:
+            ops.append(("clock", 1980 + rng.below(128), 1 + rng.below(12), 1 + rng.below(28), rng.below(24), rng.below(60), rng.below(60), rng.below(1000)))
+        elif r < (76 if kind == "fill" else 42) or not live:
+            ops.append(("create", nm)); live.append(nm)
+        elif r < (84 if kind == "fill" else 66):
+            t = rng.choice(live) if rng.chance(85, 100) else nm
+            if rng.chance(30, 100):
+                t = t.upper() if rng.chance(1, 2) else t.lower()
+            ops.append(("remove", t))
+            for x in [x for x in live if x.upper() == t.upper()]:
+                live.remove(x)
+        else:
+            s_ = rng.choice(live) if rng.chance(88, 100) else nm
+            how = rng.below(100)
+            d = nm if how < 50 else cdir_corr.case_variant(rng, s_) if how < 78 else rng.choice(live) if how < 94 else s_
+            ops.append(("rename", s_, d))
+            if s_ in live and d not in live and rng.chance(2, 3):
+                live.remove(s_); live.append(d)
+    return prelude, ops
+
+
+def build_root32_script(conf, prelude, ops):
+    name, dev, fmt, fill = conf
+    lines = ["dev %d %d" % (dev, fill), "wlog 0", "format " + fmt, "pages", "clock %d %d %d %d %d %d %d" % CLOCK0]
+    pp = 3
+    if prelude:
+        lines += ["mount 1 0 lossy"] + prelude + ["unmount", "pages"]
+        pp = len(lines) - 1
+    marks = []
+    h = 40
+    for op in ops:
+        if op[0] == "clock":
+            lines.append("clock %d %d %d %d %d %d %d" % op[1:]); marks.append((None, None)); continue
+        lines.append("mount 1 0 lossy")
+        if op[0] == "create":
+            lines.append("create_file 0 %s %d" % (hexs(op[1]), h)); ri = len(lines) - 1
+            lines.append("drop_file %d" % h); h += 1
+        elif op[0] == "remove":
+            lines.append("remove 0 %s" % hexs(op[1])); ri = len(lines) - 1
+        else:
+            lines.append("rename 0 %s 0 %s" % (hexs(op[1]), hexs(op[2]))); ri = len(lines) - 1
+        lines += ["unmount", "pages"]
+        marks.append((ri, len(lines) - 1))
+    lines += ["mount 1 0 lossy", "list 0", "unmount"]
+    return lines, 3, pp, marks, len(lines) - 2
+
+
+def root32_chain_py(pages, fill, g):
+    """the root chain read directly from the first FAT copy of the device pages (28-bit links), or None (bad link / loop)"""
+    out, c = [], g.root_cluster
+    while True:
+        if c < 2 or c >= g.clusters + 2 or c in out or len(out) > 4096:
+            return None
+        out.append(c)
+        c = int.from_bytes(dev_bytes(pages, fill, g.fat_off + 4 * c, 4), "little") & 0x0FFFFFFF
+        if c >= 0x0FFFFFF8:
+            return out
+
+
+def run_root32_stream(rep, tier, seed):
+    rng = vlib.Rng(seed * 32452843 + 13)
+    quick = tier == "quick"
+    kinds_plan = ["plain", "fill2", "bigroot", "owners", "bigroot", "fill"] if quick else ["plain", "fill2", "bigroot", "owners", "plain", "fill", "bigroot", "owners"] * 3
+    nops = 16 if quick else 24
+    nconf = 2 if quick else len(ROOT32_CONFS)
+    jobs = []
+    for i, kind in enumerate(kinds_plan):
+        conf = ROOT32_CONFS[0] if quick and i < 4 else ROOT32_CONFS[1] if quick else ROOT32_CONFS[(i // 4 + i) % nconf]
+        prelude, ops = gen_root32_history(rng, nops * 2 if kind in ("fill", "fill2") and conf is ROOT32_CONFS[0] else nops, kind)
+        lines, pf, pp, marks, li = build_root32_script(conf, prelude, ops)
+        jobs.append((conf, kind, ops, lines, pf, pp, marks, li))
+    results = vlib.run_scripts([j[3] for j in jobs])
+    utable, table = namelib.upper_table("default")
+    mlines = ["upper " + table]
+    plan = []
+    geoms = {}
+    max_pages = 0
+    for ji, (conf, kind, ops, lines, pf, pp, marks, li) in enumerate(jobs):
+        res = results[ji]
+        fill = conf[3]
+        p0 = pages_of(res[pp]) if res[pp].kind == "ok" else {}
+        g = fatimg.Geom(bytes.fromhex(p0[0])[:64]) if 0 in p0 else None
+        if g is None or g.bits != 32 or not g.is32 or any(r.kind != "ok" for r in res[:pp + 1]):
+            rep.violation("[cvol-root32] %s: the prelude (format as FAT32%s) failed" % (conf[0], ", library-only steps" if pp != pf else ""),
+                          {"theorem_or_correspondence": CORR_ROOT32, "script": lines[:pp + 1]}, nofail=True)
+            continue
+        geoms[ji] = g
+        prev = pp
+        clock = CLOCK0
+        for oi, op in enumerate(ops):
+            ri, pi = marks[oi]
+            if op[0] == "clock":
+                clock = op[1:]; continue
+            if res[ri].kind in ("skipped", "bad", "hang", "panic") or res[pi].kind != "ok":
+                break
+            before = pages_of(res[prev])
+            max_pages = max(max_pages, len(before))
+            mlines.append("imgq" + img_line(fill, before)[3:]); plan.append(None)
+            mlines.append("r32chain"); plan.append(None)
+            if op[0] == "create":
+                mlines.append("r32create %s %d %d %d %d %d %d %d" % ((hexs(op[1]),) + tuple(clock)))
+            elif op[0] == "remove":
+                mlines.append("r32remove %s" % hexs(op[1]))
+            else:
+                mlines.append("r32rename %s %s" % (hexs(op[1]), hexs(op[2])))
+            kop = len(plan)           # index of the op's answer in the model output
+            if op[0] == "create":
+                # the same create INCLUDING growth, from the same re-based image, with the FS-info write-back of unmount
+                plan.append(None)
+                mlines.append("r32grow %s %d %d %d %d %d %d %d" % ((hexs(op[1]),) + tuple(clock)))
+            plan.append((ji, oi, prev, kop))
+            prev = pi
+    out = vlib.model_run("cvol", "\n".join(mlines) + "\n")[1:]
+    assert len(out) == len(plan), (len(out), len(plan))
+    ncmp = nviol = nna = nframe = npages = nchain_ok = nclean = ngrow = ngrow_frame = nboth = nfsi = nfsw = 0
+    kinds, slots, chain_lens, hist_kinds, na_by_op, grow_kinds, grow_chain_after, grow_added, grow_slots = {}, {}, {}, {}, {}, {}, {}, {}, {}
+    def bump(d, k):
+        d[k] = d.get(k, 0) + 1
+    for k, pl in enumerate(plan):
+        if pl is None:
+            continue
+        ji, oi, prev, kop = pl
+        conf, kind, ops, lines, pf, pp, marks, li = jobs[ji]
+        res = results[ji]
+        fill = conf[3]
+        g = geoms[ji]
+        op = ops[oi]
+        ri, pi = marks[oi]
+        ir = res[ri]
+        rep.count()
+        chain_line, mo = out[kop - 1].split(" "), out[kop].split(" ")
+        mg = out[k].split(" ") if k != kop else None          # the r32grow answer of a create
+        itag = "ok" if ir.kind == "ok" else (ir.kind + " " + ir.payload.split()[0] if ir.payload else ir.kind)
+        before, after = pages_of(res[prev]), pages_of(res[pi])
+        chain = root32_chain_py(before, fill, g)
+        mchain = [int(x) for x in chain_line[1].split(",")] if chain_line[0] == "ok" and len(chain_line) > 1 else None
+        if chain != mchain or chain is None:
+            nviol += 1
+            if nviol <= 3:
+                rep.violation("[cvol-root32] %s: the root chain read from the device's FAT (%s) is not the model's root32_chain (%s) before %s %r"
+                              % (conf[0], chain, mchain, op[0], op[1:]), {"theorem_or_correspondence": CORR_ROOT32, "script": lines[:marks[oi][0]]}, nofail=True)
+            continue
+        nchain_ok += 1
+        bump(chain_lens, len(chain))
+        # ---- directly on the device (independent of the model's answer bytes): the frame of an operation inside the FAT32 root.
+        #      NOTHING is excluded: the bracket's own writes (status byte 65 set at the first write, cleared by unmount; the FS-info
+        #      sector only when an allocation made it dirty) must cancel out for an operation that allocates / frees nothing.
+        lo = [g.cluster_off(c) for c in chain]
+        bad = None
+        blank = "%02x" % fill * 4096
+        for o in sorted(set(before) | set(after)):
+            a, b = before.get(o, blank), after.get(o, blank)
+            if a == b:
+                continue
+            for i in range(4096):
+                if a[2 * i:2 * i + 2] != b[2 * i:2 * i + 2] and not any(c0 <= o + i < c0 + g.cluster_size for c0 in lo):
+                    bad = o + i
+                    break
+            if bad is not None:
+                break
+        if dev_bytes(after, fill, g.status_off, 1)[0] & 3 == 0:
+            nclean += 1
+        if mo[0] == "na" and mg is not None and mg[0] not in ("na", "nomount"):
+            # ---- a create the no-growth model declines: compared through vol32_root_create_grow (+ the FS-info write-back of unmount)
+            ngrow += 1
+            gtag = "ok" if mg[0] in ("ok", "exists") else ("err " + mg[1]) if mg[0] == "err" else mg[0]
+            bump(grow_kinds, "create " + (mg[0] if mg[0] != "err" else gtag))
+            gchain = [int(x) for t in mg if t.startswith("chain=") and len(t) > 6 for x in t[6:].split(",")]
+            gfi = [t[3:].split(",") for t in mg if t.startswith("fi=")]
+            chain_after = root32_chain_py(after, fill, g)
+            bump(grow_chain_after, len(chain_after) if chain_after else -1); bump(grow_added, (len(chain_after) - len(chain)) if chain_after else -1)
+            bump(grow_slots, r32_slots(op[1]))
+            fso = int.from_bytes(bytes.fromhex(before[0])[48:50], "little") * g.bps
+            words = [int.from_bytes(dev_bytes(after, fill, fso + x, 4), "little") for x in (488, 492)]
+            fi_ok = bool(gfi) and len(gfi[0]) == 3 and [("-" if w == 0xFFFFFFFF else str(w)) for w in words] == gfi[0][:2]
+            nfsi += 1 if fi_ok else 0
+            nfsw += 1 if dev_bytes(before, fill, fso + 488, 8) != dev_bytes(after, fill, fso + 488, 8) else 0
+            # directly on the device: a growing create may change only the clusters of the root chain afterwards, the FAT entries (every
+            # copy) of the old last cluster and of the new clusters, and the two hint words of the FS-info sector
+            allowed = [(g.cluster_off(c), g.cluster_size) for c in (chain_after or chain)]
+            for c in [chain[-1]] + [c for c in (chain_after or []) if c not in chain]:
+                allowed += [(g.fat_off + f * g.spf * g.bps + 4 * c, 4) for f in range(g.fats)]
+            allowed.append((fso + 488, 8))
+            gbad = None
+            for o in sorted(set(before) | set(after)):
+                a, b = before.get(o, blank), after.get(o, blank)
+                if a == b:
+                    continue
+                for i in range(4096):
+                    if a[2 * i:2 * i + 2] != b[2 * i:2 * i + 2] and not any(x0 <= o + i < x0 + n for x0, n in allowed):
+                        gbad = o + i
+                        break
+                if gbad is not None:
+                    break
+            if gbad is not None or chain_after is None or chain_after[:len(chain)] != chain:
+                ngrow_frame += 1
+                rep.violation("[cvol-root32] %s: create %r growing the root directory of a FAT32 volume (root chain %s -> %s) changed device byte %s, "
+                              "which lies neither in a cluster of the root chain, nor in the FAT entries of the old last / the new clusters, nor in "
+                              "the hint words of the FS-info sector (or the old chain is not a prefix of the new one)"
+                              % (conf[0], op[1:], chain, chain_after, gbad), {"script": lines[:pi + 1]})
+            lib = md5s(after)
+            mod = parse_digest(mg[1:])
+            npages += len(lib)
+            if gtag != itag or lib != mod or gchain != chain_after or not fi_ok:
+                nviol += 1
+                diff = sorted(o for o in set(lib) | set(mod) if lib.get(o) != mod.get(o))
+                if nviol <= 3:
+                    rep.violation("[cvol-root32] %s: model (vol32_root_create_grow + FS-info write-back) and implementation disagree on create %r growing the "
+                                  "root of a FAT32 volume: outcome model %s / library %s; root chain before %s, after: model %s / device %s; FS-info "
+                                  "free,next: model %s / device %s; %d device page(s) differ%s"
+                                  % (conf[0], op[1:], gtag, itag, chain, gchain, chain_after, gfi, words, len(diff), (" (first at offset %d)" % diff[0]) if diff else ""),
+                                  {"theorem_or_correspondence": CORR_ROOT32, "script": lines[:pi + 1]}, nofail=True)
+                continue
+            rep.distinct(("cvol-root32-grow", conf[0], op[1:], tuple(chain_after), lib.get(lo[0] - lo[0] % 4096)))
+            continue
+        if mo[0] == "na":
+            nna += 1
+            bump(kinds, R32_NA); bump(na_by_op, "%s -> library %s%s" % (op[0], itag, ", root chain grew" if root32_chain_py(after, fill, g) != chain else ""))
+            continue
+        if bad is not None:
+            nframe += 1
+            rep.violation("[cvol-root32] %s: %s %r in the root directory of a FAT32 volume (root chain %s, no growth, no clusters owned) changed "
+                          "device byte %d, which lies in no cluster of the root chain" % (conf[0], op[0], op[1:], chain, bad), {"script": lines[:pi + 1]})
+        ncmp += 1
+        mtag = "ok" if mo[0] in ("ok", "exists") else ("err " + mo[1]) if mo[0] == "err" else mo[0]
+        bump(kinds, op[0] + " " + (mo[0] if mo[0] != "err" else mtag))
+        bump(hist_kinds, kind)
+        if op[0] == "create" and mo[0] == "ok":
+            bump(slots, r32_slots(op[1]))
+        lib = md5s(after)
+        mod = parse_digest(mo[1:])
+        npages += len(lib)
+        if mg is not None:
+            # a create inside the slots the root has: vol32_root_create_grow (clean latch, so no FS-info write) must say the same
+            nboth += 1
+            gtag = "ok" if mg[0] in ("ok", "exists") else ("err " + mg[1]) if mg[0] == "err" else mg[0]
+            gchain = [int(x) for t in mg if t.startswith("chain=") and len(t) > 6 for x in t[6:].split(",")]
+            if gtag != mtag or parse_digest(mg[1:]) != mod or gchain != chain:
+                nviol += 1
+                if nviol <= 3:
+                    rep.violation("[cvol-root32] %s: the models vol32_root_create (%s) and vol32_root_create_grow (%s, chain %s) disagree on a create %r "
+                                  "that fits the root chain %s" % (conf[0], mtag, gtag, gchain, op[1:], chain),
+                                  {"theorem_or_correspondence": CORR_ROOT32, "script": lines[:pi + 1]}, nofail=True)
+                continue
+        if mtag != itag or lib != mod:
+            nviol += 1
+            diff = sorted(o for o in set(lib) | set(mod) if lib.get(o) != mod.get(o))
+            if nviol <= 3:
+                rep.violation("[cvol-root32] %s: model and implementation disagree on %s %r in the root directory of a FAT32 volume (root chain %s): "
+                              "outcome model %s / library %s; %d device page(s) differ%s"
+                              % (conf[0], op[0], op[1:], chain, mtag, itag, len(diff), (" (first at offset %d)" % diff[0]) if diff else ""),
+                              {"theorem_or_correspondence": CORR_ROOT32, "script": lines[:pi + 1]}, nofail=True)
+            continue
+        rep.distinct(("cvol-root32", conf[0], op[0], mtag, op[1:], tuple(chain), lib.get(lo[0] - lo[0] % 4096)))
+    ndup = 0
+    for ji, (conf, kind, ops, lines, pf, pp, marks, li) in enumerate(jobs):
+        if results[ji][li].kind == "ok":
+            d = cdir_corr.dup_long(results[ji][li].extra, utable)
+            if d is not None:
+                ndup += 1
+                rep.violation("[cvol-root32] %s: at the end of the history the FAT32 root lists two entries whose long names are equal under "
+                              "case folding (%r and %r)" % (conf[0], d[0], d[1]), {"script": lines})
+    rep.cov["cvol_root32_correspondence"] = {
+        "histories": len(jobs), "history_kinds": kinds_plan if quick else {x: kinds_plan.count(x) for x in set(kinds_plan)},
+        "configs": sorted(set(j[0][0] for j in jobs)), "calls": sum(1 for p in plan if p is not None), "ops_compared_whole_device": ncmp,
+        "compared_ops_per_history_kind": hist_kinds, "disagreements": nviol, "frame_failures_on_device": nframe, "declined_by_model_na": nna,
+        "declined_by_op_and_library_outcome": na_by_op, "model_outcomes": kinds, "created_entries_by_slots_needed": slots,
+        "root_chain_length_before_op": chain_lens, "root_chain_device_fat_equals_model_decoder": nchain_ok,
+        "status_byte_clean_after_bracket": nclean, "device_pages_compared": npages, "most_pages_shipped_per_call": max_pages,
+        "duplicate_long_names_in_final_listing": ndup,
+        "growing_creates_compared_whole_device": ngrow, "growing_create_outcomes": grow_kinds, "growing_create_frame_failures_on_device": ngrow_frame,
+        "root_chain_length_after_growing_create": grow_chain_after, "clusters_added_by_growing_create": grow_added,
+        "growing_creates_by_slots_needed": grow_slots, "fsinfo_words_on_device_equal_model_latch": nfsi, "fsinfo_words_rewritten_by_the_library_at_unmount": nfsw,
+        "non_growing_creates_also_through_create_grow": nboth,
+        "growth": "a create the no-growth model declines is compared through Vol32Root.vol32_root_create_grow (model r32grow): latch read from the image "
+                  "by VolFsInfo.vol32_mount, FS-info sector written back by VolFsInfo.vol32_flush_fs_info in the glue (what unmount does), then outcome, "
+                  "EVERY non-zero page, the root chain afterwards (device FAT vs model) and the FS-info free / next words (device vs model latch); "
+                  "NotEnoughSpace is not reachable on these volumes",
+        "excluded_from_comparison": "nothing in a compared call: all non-zero 4096-byte pages of the device (boot sector with the status byte at 65, "
+                                    "FS-info sector, backup boot, both FAT copies, every data cluster) are compared and framed; the model is re-based on the "
+                                    "library's own pages before EVERY call, so the FS-info sector / status byte as left by earlier brackets (growth, prelude) are "
+                                    "inputs, not predictions; calls the models decline (na: remove / rename of an entry owning clusters or of a directory) are only counted"}
     return nviol
